@@ -29,3 +29,69 @@ func VH_C18_snake() {
 	}
 	vAssert("C18.snake.all_consumed", j == len(s))
 }
+
+// VH_C18_layout: after any history and under every configuration the
+// collection directory is named after the type (snake case when
+// lower-case names are on) and contains schema.json plus exactly one
+// file per stored object named <uuid><ext>[.gz], whose content is the
+// plain JSON encoding of the object (gzip iff .gz).
+func VH_C18_layout() {
+	cfg := vhPickCfg()
+	db, root := vhOpenDB(cfg)
+	var rows []vhRow
+	pre := vLen("pre", 0, vBound("PRE", 2))
+	for k := 0; k < pre; k++ {
+		o := vhNewObj()
+		vAssert("C18.pre.insert", db.InsertOrUpdate(o) == nil)
+		rows = append(rows, vhRow{o.UUID(), *o})
+	}
+	switch vChoice("then", 3) {
+	case 0:
+	case 1:
+		if pre > 0 {
+			d := &vObj{}
+			d.Initialize(rows[0].uuid)
+			vAssert("C18.delete", db.Delete(d) == nil)
+			rows = rows[1:]
+		}
+	case 2:
+		if pre > 0 {
+			u := &vObj{A: vInt64("A2"), S: "s"}
+			u.Initialize(rows[0].uuid)
+			vAssert("C18.update", db.InsertOrUpdate(u) == nil)
+			rows[0].o = *u
+		}
+	}
+	vAssert("C18.close", db.Close() == nil)
+	dirName := "sod.vObj"
+	if cfg.lower {
+		dirName = "sod.v_obj"
+	}
+	ext := ".json"
+	if cfg.ext != "" {
+		ext = cfg.ext
+	}
+	if cfg.compress {
+		ext += ".gz"
+	}
+	top := vListDir(root)
+	vAssert("C18.layout.one_collection_dir", len(top) == 1 && top[0] == dirName)
+	want := map[string]bool{"schema.json": true}
+	for i := range rows {
+		want[rows[i].uuid+ext] = true
+	}
+	names := vListDir(root + "/" + dirName)
+	vAssert("C18.layout.file_count", len(names) == len(want))
+	for _, n := range names {
+		vAssert("C18.layout.expected_name", want[n])
+	}
+	// each object file is the plain JSON encoding of the object
+	for i := range rows {
+		var got vObj
+		err := unmarshalJsonFile(root+"/"+dirName+"/"+rows[i].uuid+ext, &got)
+		vAssert("C18.layout.plain_json", err == nil)
+		if err == nil {
+			vAssert("C18.layout.content", vhFieldsEq(&got, &rows[i].o))
+		}
+	}
+}
